@@ -1,8 +1,57 @@
 import SLModel.Drv.Util
+import SLModel.Core.Snapshot
 open Lean
 namespace SL.Drv.C06
+open SL.Drv SL.Snap
 
-/-- stub: no model operations for C06 yet -/
-def handle (_req : Json) : Except String Json := .error "C06: not implemented"
+/-- manifest = `[[name, mask], …]` (mask: canonical string of the tombstone list) -/
+def manifestOf (j : Json) : Except String (List (String × String)) := do
+  (← j.getArr?).toList.mapM (fun e => do
+    let a ← e.getArr?
+    match a.toList with
+    | [n, m] => return ((← n.getStr?), (← m.getStr?))
+    | _ => throw "C06: manifest entry must be [name, mask]")
+
+/-- step = `["rd"] | ["create", name] | ["publish", manifest] | ["unlink", name]`;
+the content of a segment file is identified with its (unique, never reused) name -/
+def stepOf (j : Json) : Except String (Step String String String) := do
+  let a ← j.getArr?
+  match a.toList with
+  | [k] => if (← k.getStr?) == "rd" then return .rd else throw "C06: bad step"
+  | [k, x] =>
+    match (← k.getStr?) with
+    | "create" => do let n ← x.getStr?; return .env (.create n n)
+    | "unlink" => return .env (.unlink (← x.getStr?))
+    | "publish" => return .env (.publish (← manifestOf x))
+    | s => throw s!"C06: unknown step {s}"
+  | _ => throw "C06: bad step"
+
+def entryJson (e : String × String) : Json := Json.arr #[(e.1 : Json), (e.2 : Json)]
+
+/-- `{"op":"open","dir":[names],"manifest":[[name,mask]…],"steps":[…]}` →
+monitor value, reader outcome -/
+def handle (req : Json) : Except String Json := do
+  let op ← getStr req "op"
+  match op with
+  | "open" =>
+    let dir ← (← getArr req "dir").toList.mapM (·.getStr?)
+    let m ← manifestOf (← req.getObjVal? "manifest")
+    let steps ← (← getArr req "steps").toList.mapM stepOf
+    let w : World String String String := { dir := dir.map (fun n => (n, n)), manifest := m }
+    let closed := (snapshot w.dir w.manifest).isSome
+    let (w', r) := run (w, none) steps
+    let prot := openWindowProtected w.manifest steps
+    match r with
+    | none =>
+      return Json.mkObj [("protected", prot), ("closed0", closed), ("copied", Json.null)]
+    | some r =>
+      return Json.mkObj [
+        ("protected", prot), ("closed0", closed),
+        ("copied", Json.arr (r.copied.map entryJson).toArray),
+        ("failed", r.failed), ("todo", r.todo.length),
+        ("opened", Json.arr (r.opened.map (fun e => entryJson (e.1, e.2.1))).toArray),
+        ("final_manifest", Json.arr (w'.manifest.map entryJson).toArray),
+        ("final_dir", Json.arr (w'.dir.map (fun p => (p.1 : Json))).toArray)]
+  | _ => throw s!"C06: unknown op {op}"
 
 end SL.Drv.C06
